@@ -1,4 +1,5 @@
 pub mod adoc;
 pub mod chars;
+pub mod edits;
 pub mod gen;
 pub mod wf;
